@@ -36,7 +36,12 @@ func Check_Lockset() {
 		_, err := ep.SendSet(common.TemplateSet(uint16(300+i), kinds))
 		sx.Assert(err == nil, "history-template")
 	}
-	switch sx.Choose("entryPoint", 6) {
+	ep0 := sx.Choose("entryPoint", 8)
+	if ep0 >= 6 {
+		realBackground(ep0 - 6)
+		return
+	}
+	switch ep0 {
 	case 0:
 		sx.MonitorBegin("app", false, ep)
 		ep.SendSet(common.TemplateSet(400, kinds))
@@ -72,6 +77,159 @@ func Check_Lockset() {
 		sx.MonitorEnd()
 	}
 	sx.Reach("entry-point-done")
+}
+
+// realBackground: the goroutines the real InitExportingProcess starts (UDP:
+// the refresh loop; net.Dial returns the harness's connection, the ticker
+// fires when the harness says so), on the path where the refresh write fails
+// and the background goroutine closes the process itself.  which == 0: the
+// refresh goroutine's accesses are logged (role refresher); which == 1: the
+// application's next SendSet on the process closed that way (role app).
+func realBackground(which int) {
+	conn := &common.FakeConn{}
+	sx.MonitorIgnore(conn)
+	sx.RegisterConn(conn)
+	ep, err := exporter.InitExportingProcess(exporter.ExporterInput{CollectorAddress: "10.0.0.9:4739", CollectorProtocol: "udp", ObservationDomainID: 1, TempRefTimeout: 1})
+	sx.Settle() // the refresh goroutine reaches its select
+	sx.Assert(err == nil && sx.NumTickers() == 1, "init")
+	_, err = ep.SendSet(common.TemplateSet(300, kinds))
+	sx.Assert(err == nil, "history-template")
+	conn.FailWrite = true
+	if which == 0 {
+		sx.MonitorBegin("refresher", false, ep)
+		sx.FireTicker(0)
+		sx.Settle()
+		sx.MonitorEnd()
+	} else {
+		sx.FireTicker(0)
+		sx.Settle()
+		sx.MonitorBegin("app", false, ep)
+		ep.SendSet(common.TemplateSet(400, kinds))
+		sx.MonitorEnd()
+	}
+	sx.Assert(conn.Closed >= 1, "failed-refresh-does-not-close-the-process")
+	sx.Reach("real-background")
+}
+
+// Check_Lifecycle: the real InitExportingProcess with its background
+// goroutine, the application's sends, ticks, a failing connection and Close,
+// under every interleaving of their synchronisation points.
+func Check_Lifecycle() {
+	proto := []string{"udp", "tcp"}[sx.Choose("protocol", 2)]
+	conn := &common.FakeConn{}
+	sx.RegisterConn(conn)
+	ep, err := exporter.InitExportingProcess(exporter.ExporterInput{CollectorAddress: "10.0.0.9:4739", CollectorProtocol: proto, ObservationDomainID: 7, TempRefTimeout: 1})
+	sx.Settle() // the background goroutine reaches its select
+	sx.Assert(err == nil && sx.NumTickers() == 1, "init")
+	_, err = ep.SendSet(common.TemplateSet(300, kinds))
+	sx.Assert(err == nil, "template")
+	tplMsg := conn.Writes[0]
+	trouble := sx.Choose("connectionTrouble", 2) == 1
+	if trouble {
+		// UDP: the next write fails; TCP: the collector closed its side
+		conn.FailWrite = proto == "udp"
+		conn.PeerEOF = proto == "tcp"
+	}
+	// the interval passes while the application sends a data set
+	sx.FireTicker(0)
+	recs := common.DrawRecords(kinds, 1)
+	_, errData := ep.SendSet(common.DataSet(300, recs))
+	sx.Settle()
+	if !trouble {
+		sx.Assert(errData == nil, "data-send-fails-on-a-healthy-connection")
+		// every Write is one whole, well-formed message: the application's data
+		// message and (UDP) the refreshed template, in either order, never intermixed
+		nTpl, nData := 0, 0
+		for _, w := range conn.Writes[1:] {
+			sx.Assert(len(w) >= 20 && int(ref.GetU16(w, 2)) == len(w) && ref.GetU16(w, 0) == 10 && ref.GetU32(w, 12) == 7, "write-is-not-one-whole-message")
+			if ref.GetU16(w, 16) == 2 {
+				sx.Assert(sx.EqBytes(w[16:], tplMsg[16:]), "refreshed-template-differs-from-original")
+				nTpl++
+			} else {
+				want := common.RefMessage(ref.GetU32(w, 4), 1, 7, common.RefDataSet(300, recs))
+				sx.Assert(sx.EqBytes(w, want), "data-message-corrupted-by-background-work")
+				nData++
+			}
+		}
+		sx.Assert(nData == 1, "data-message-count")
+		if proto == "udp" {
+			sx.Assert(nTpl == 1, "template-not-retransmitted-when-the-interval-passed")
+		} else {
+			sx.Assert(nTpl == 0, "template-refresh-over-tcp")
+		}
+		sx.Reach("healthy")
+	} else {
+		// the background goroutine has closed the process: sends fail instead of vanishing
+		sx.Assert(conn.Closed == 1, "trouble-not-noticed-within-the-interval")
+		before := len(conn.Writes)
+		_, err = ep.SendSet(common.TemplateSet(301, kinds))
+		sx.Assert(err != nil && len(conn.Writes) == before, "send-after-background-close-does-not-fail")
+		sx.Reach("closed-by-background")
+	}
+	// Close from the application: returns, idempotent, stops the background work
+	ep.CloseConnToCollector()
+	ep.CloseConnToCollector()
+	sx.Assert(conn.Closed == 1, "connection-closed-other-than-exactly-once")
+	sx.Assert(sx.LiveGoroutines() == 0, "background-goroutine-survives-close")
+	before := len(conn.Writes)
+	sx.FireTicker(0)
+	sx.Settle()
+	sx.Assert(len(conn.Writes) == before, "bytes-written-after-close")
+	sx.Reach("lifecycle-done")
+}
+
+// Check_RefreshInterval: virtual time.  Over UDP every template sent so far
+// is retransmitted each refresh interval, whatever else the application sends
+// in between: a template sent at time 0 has been retransmitted by the time one
+// interval has passed, even if other templates (or data) were sent meanwhile.
+func Check_RefreshInterval() {
+	const interval = 10 // seconds
+	conn := &common.FakeConn{}
+	sx.RegisterConn(conn)
+	ep, err := exporter.InitExportingProcess(exporter.ExporterInput{CollectorAddress: "10.0.0.9:4739", CollectorProtocol: "udp", ObservationDomainID: 7, TempRefTimeout: interval})
+	sx.Settle()
+	sx.Assert(err == nil && sx.NumTickers() == 1, "init")
+	count := func(id uint16) int {
+		n := 0
+		for _, w := range conn.Writes {
+			if len(w) >= 22 && ref.GetU16(w, 16) == 2 && ref.GetU16(w, 20) == id {
+				n++
+			}
+		}
+		return n
+	}
+	_, err = ep.SendSet(common.TemplateSet(300, kinds))
+	sx.Assert(err == nil, "template")
+	// the application keeps sending while the interval runs: more templates, or data
+	later := sx.Range("sendsDuringTheInterval", 0, 2)
+	what := sx.Choose("whatIsSent", 2)
+	step := int64(interval) * 1e9 / 10
+	elapsed := int64(0)
+	for i := 0; i < later; i++ {
+		sx.AdvanceTime(3 * step)
+		elapsed += 3 * step
+		sx.Settle()
+		if what == 0 {
+			_, err = ep.SendSet(common.TemplateSet(uint16(301+i), kinds))
+		} else {
+			_, err = ep.SendSet(common.DataSet(300, common.DrawRecords(kinds, 1)))
+		}
+		sx.Assert(err == nil, "later-send")
+	}
+	sx.Assert(count(300) == 1, "template-retransmitted-before-the-interval-passed")
+	sx.AdvanceTime(int64(interval)*1e9 - elapsed)
+	sx.Settle()
+	sx.Assert(count(300) == 2, "template-not-retransmitted-within-one-refresh-interval")
+	sx.AdvanceTime(int64(interval) * 1e9)
+	sx.Settle()
+	sx.Assert(count(300) == 3, "template-not-retransmitted-in-the-second-interval")
+	if later > 0 && what == 0 {
+		sx.Assert(count(301) >= 2, "later-template-not-retransmitted")
+		sx.Reach("several-templates")
+	}
+	ep.CloseConnToCollector()
+	sx.Assert(sx.TickerStopped(0), "ticker-left-running-after-close")
+	sx.Reach("intervals")
 }
 
 // Check_Contracts: sequential contracts of the background bodies.
